@@ -12,6 +12,7 @@ import (
 // executes.  Schedules are NOT enumerated (DESIGN.md 2.3).
 
 type goroutine struct {
+	cond   func() bool // non-nil while blocked: true when the goroutine can proceed
 	id     int
 	resume chan struct{}
 	exited chan struct{}
@@ -65,6 +66,7 @@ func (w *Worker) spawn(fr *frame, instr ssa.Instruction, fn Value, args []Value)
 		}()
 		w.call(nil, instr.Pos(), g.fn, g.args)
 	}()
+	w.schedPoint("go")
 }
 
 func (w *Worker) progress() { w.idleYields = 0 }
@@ -216,6 +218,7 @@ func (g *goroutine) exitedClosed() bool {
 // channels
 
 func (w *Worker) chanSend(fr *frame, instr ssa.Instruction, c *Chan, v Value) {
+	w.schedPoint("chan-send")
 	if c == nil {
 		w.blockForever("send on nil channel at " + fr.site(instr))
 	}
@@ -262,6 +265,7 @@ func (c *Chan) takeRecv() (Value, bool) {
 }
 
 func (w *Worker) chanRecv(fr *frame, instr ssa.Instruction, c *Chan, commaOk bool) Value {
+	w.schedPoint("chan-recv")
 	if c == nil {
 		w.blockForever("receive from nil channel at " + fr.site(instr))
 	}
@@ -277,6 +281,7 @@ func (w *Worker) chanRecv(fr *frame, instr ssa.Instruction, c *Chan, commaOk boo
 }
 
 func (w *Worker) chanClose(fr *frame, c *Chan) {
+	w.schedPoint("chan-close")
 	if c == nil {
 		panic(targetPanic{V: Iface{T: types.Typ[types.String], V: Str{S: "close of nil channel"}}, Msg: "close of nil channel"})
 	}
@@ -288,6 +293,7 @@ func (w *Worker) chanClose(fr *frame, c *Chan) {
 }
 
 func (w *Worker) selectOp(fr *frame, instr *ssa.Select) Value {
+	w.schedPoint("select")
 	for {
 		chosen := -1
 		for i, st := range instr.States {
@@ -348,5 +354,129 @@ func (w *Worker) selectOp(fr *frame, instr *ssa.Select) Value {
 		}
 		// a blocking select with an unbuffered send case: offer the value
 		w.yield(fmt.Sprintf("select at %s", fr.site(instr)))
+	}
+}
+
+// ---------------------------------------------------------------------------
+// Schedule exploration (Config.ExploreSchedules): at every synchronisation
+// point - lock, unlock, atomic operation, channel operation, goroutine start -
+// the scheduler decision "which runnable goroutine goes next" becomes a
+// decision of the path explorer, so the interleavings of those points are
+// enumerated exhaustively up to MaxPreemptions context switches.  Code between
+// two synchronisation points runs atomically (data-race freedom of that code
+// is what the lockset monitor checks).
+
+func (w *Worker) runnable(g *goroutine) bool {
+	return !g.done && (g.cond == nil || g.cond())
+}
+
+func (w *Worker) schedPoint(why string) {
+	if !w.E.Cfg.ExploreSchedules || w.inSetup || len(w.gs) <= 1 {
+		return
+	}
+	cur := w.curG
+	if cur == nil {
+		return
+	}
+	if w.preemptions >= w.E.Cfg.MaxPreemptions {
+		return
+	}
+	cands := []*goroutine{cur}
+	for _, g := range w.gs {
+		if g != cur && w.runnable(g) {
+			cands = append(cands, g)
+		}
+	}
+	if len(cands) == 1 {
+		return
+	}
+	var k int
+	if d, ok := w.nextFixed("sched"); ok {
+		k = int(d.Val)
+	} else {
+		k = w.split(len(cands))
+	}
+	w.draws = append(w.draws, Draw{Name: "sched", Kind: "range", Val: uint64(k)})
+	if k == 0 || k >= len(cands) {
+		return
+	}
+	w.preemptions++
+	w.switchTo(cands[k])
+}
+
+func (w *Worker) switchTo(next *goroutine) {
+	cur := w.curG
+	w.curG = next
+	next.resume <- struct{}{}
+	<-cur.resume
+	if cur.kill {
+		panic(killed{})
+	}
+	w.curG = cur
+	if w.pending != nil && cur.id == 0 {
+		p := w.pending
+		w.pending = nil
+		panic(p)
+	}
+}
+
+// block waits until cond holds (other goroutines run meanwhile).
+func (w *Worker) block(cond func() bool, why string) {
+	cur := w.curG
+	if cur == nil {
+		cur = w.mainG()
+	}
+	for !cond() {
+		cur.cond = cond
+		w.yield(why)
+	}
+	cur.cond = nil
+}
+
+type muState struct {
+	writer  *goroutine
+	readers int
+}
+
+func (w *Worker) muOf(p *Value) *muState {
+	m, _ := w.pathState["mutexes"].(map[*Value]*muState)
+	if m == nil {
+		m = map[*Value]*muState{}
+		w.pathState["mutexes"] = m
+	}
+	if m[p] == nil {
+		m[p] = &muState{}
+	}
+	return m[p]
+}
+
+// realLock gives sync.Mutex / sync.RWMutex their blocking semantics when
+// schedules are explored.
+func (w *Worker) realLock(what string, p *Value) {
+	if !w.E.Cfg.ExploreSchedules || w.inSetup {
+		return
+	}
+	w.mainG()
+	st := w.muOf(p)
+	switch what {
+	case "Mutex.Lock", "RWMutex.Lock":
+		w.schedPoint(what)
+		if st.writer == w.curG {
+			panic(pathAbort{"deadlock", "mutex acquired while held by the same goroutine"})
+		}
+		w.block(func() bool { return st.writer == nil && st.readers == 0 }, what)
+		st.writer = w.curG
+	case "RWMutex.RLock":
+		w.schedPoint(what)
+		w.block(func() bool { return st.writer == nil }, what)
+		st.readers++
+	case "Mutex.Unlock", "RWMutex.Unlock":
+		st.writer = nil
+		w.progress()
+		w.schedPoint(what)
+	case "RWMutex.RUnlock":
+		st.readers--
+		w.progress()
+		w.schedPoint(what)
 	}
 }
